@@ -201,6 +201,21 @@ theorem spec_scale {e t : Exp (Ext K)} {k : K} (hk : k ≠ 0) {req : Req} {s s1 
   rw [throughScale_fin] at r1
   exact rel_scale hk r1
 
+/-- scaling by the literal `0` of a factor that was still lowered (fix 5a25b35): the value is `0`, whatever
+requirement the factor was lowered with. -/
+theorem spec_scale_zero {e t : Exp (Ext K)} {req req1 : Req} {s s1 : St (Ext K)} {x : Ctx (Ext K)}
+    (A : Spec Src t req1 s x s1)
+    (hsem : ∀ (ρ : String → K) v, eval ρ e = some v → ∃ w, eval ρ t = some w ∧ w * 0 = v) :
+    Spec Src e req s (x.mulBy (Ext.fin (0 : K))) s1 := by
+  obtain ⟨ok, _, hn⟩ := mulBy_spec (fun _ => (0 : K)) A.cok 0
+  refine Spec.map1 (fun a => a * 0) A ok (fun z hz => by rwa [hn] at hz)
+    (fun ρ => (mulBy_spec ρ A.cok 0).2.1) ?_
+  intro ρ v _ hv
+  obtain ⟨w, hw, hwk⟩ := hsem ρ v hv
+  refine ⟨w, hw, fun a1 _ => ?_, hwk⟩
+  rw [← hwk]
+  exact rel_of_eq req (by ring)
+
 theorem spec_zero {e : Exp (Ext K)} {req : Req} {s : St (Ext K)} (hinv : StInv Src s)
     (hsem : ∀ (ρ : String → K) v, eval ρ e = some v → v = 0) :
     Spec Src e req s (Ctx.fromRhs (Arith.zero : Ext K)) s := by
@@ -213,8 +228,9 @@ theorem spec_mul {a b : Exp (Ext K)} (iha : SpecHolds Src a) (ihb : SpecHolds Sr
   rcases num_or_not a with ⟨k, rfl⟩ | hna
   · obtain ⟨kv, rfl⟩ := hpre.defined.bin_left.num
     rw [linExp] at h
-    by_cases hk : Arith.eq (Ext.fin kv) (Arith.zero : Ext K) = true
-    · rw [if_pos hk] at h
+    by_cases hk2 : (Arith.eq (Ext.fin kv) (Arith.zero : Ext K) && !(Exp.mayBeUndefined b)) = true
+    · rw [if_pos hk2] at h
+      have hk : Arith.eq (Ext.fin kv) (Arith.zero : Ext K) = true := (Bool.and_eq_true _ _ ▸ hk2).1
       simp only [pure_ok, Prod.mk.injEq] at h
       obtain ⟨rfl, rfl⟩ := h
       have hk0 : kv = 0 := by simpa using (ar_eq_zero_iff (Ext.fin kv)).mp hk
@@ -225,24 +241,27 @@ theorem spec_mul {a b : Exp (Ext K)} (iha : SpecHolds Src a) (ihb : SpecHolds Sr
       simp only [Option.some.injEq] at hp
       simp [binVal, ← hp, hk0] at hpq
       exact hpq.symm
-    · rw [if_neg hk] at h
+    · rw [if_neg hk2] at h
       simp only [bind_ok, pure_ok, Prod.mk.injEq] at h
       obtain ⟨x, s1, h1, rfl, rfl⟩ := h
-      have hk0 : kv ≠ 0 := by
-        intro h0; apply hk; rw [h0]; simp
       have B := ihb _ _ _ _ hpre.bin_right h1
-      refine spec_scale hk0 B ?_
-      intro ρ v hv
-      obtain ⟨p, q, hp, hq, hpq⟩ := eval_bin_some hv
-      rw [eval_num_fin] at hp
-      simp only [Option.some.injEq] at hp
-      simp [binVal, ← hp] at hpq
-      exact ⟨q, hq, by rw [← hpq]; ring⟩
+      have hsem : ∀ (ρ : String → K) v, eval ρ (.bin .mul (.num (Ext.fin kv)) b) = some v →
+          ∃ w, eval ρ b = some w ∧ w * kv = v := by
+        intro ρ v hv
+        obtain ⟨p, q, hp, hq, hpq⟩ := eval_bin_some hv
+        rw [eval_num_fin] at hp
+        simp only [Option.some.injEq] at hp
+        simp [binVal, ← hp] at hpq
+        exact ⟨q, hq, by rw [← hpq]; ring⟩
+      by_cases hk0 : kv = 0
+      · subst hk0; exact spec_scale_zero B hsem
+      · exact spec_scale hk0 B hsem
   · rcases num_or_not b with ⟨k, rfl⟩ | hnb
     · obtain ⟨kv, rfl⟩ := hpre.defined.bin_right.num
       rw [linExp.eq_4 _ _ _ hna] at h
-      by_cases hk : Arith.eq (Ext.fin kv) (Arith.zero : Ext K) = true
-      · rw [if_pos hk] at h
+      by_cases hk2 : (Arith.eq (Ext.fin kv) (Arith.zero : Ext K) && !(Exp.mayBeUndefined a)) = true
+      · rw [if_pos hk2] at h
+        have hk : Arith.eq (Ext.fin kv) (Arith.zero : Ext K) = true := (Bool.and_eq_true _ _ ▸ hk2).1
         simp only [pure_ok, Prod.mk.injEq] at h
         obtain ⟨rfl, rfl⟩ := h
         have hk0 : kv = 0 := by simpa using (ar_eq_zero_iff (Ext.fin kv)).mp hk
@@ -253,19 +272,21 @@ theorem spec_mul {a b : Exp (Ext K)} (iha : SpecHolds Src a) (ihb : SpecHolds Sr
         simp only [Option.some.injEq] at hq
         simp [binVal, ← hq, hk0] at hpq
         exact hpq.symm
-      · rw [if_neg hk] at h
+      · rw [if_neg hk2] at h
         simp only [bind_ok, pure_ok, Prod.mk.injEq] at h
         obtain ⟨x, s1, h1, rfl, rfl⟩ := h
-        have hk0 : kv ≠ 0 := by
-          intro h0; apply hk; rw [h0]; simp
         have A := iha _ _ _ _ hpre.bin_left h1
-        refine spec_scale hk0 A ?_
-        intro ρ v hv
-        obtain ⟨p, q, hp, hq, hpq⟩ := eval_bin_some hv
-        rw [eval_num_fin] at hq
-        simp only [Option.some.injEq] at hq
-        simp [binVal, ← hq] at hpq
-        exact ⟨p, hp, hpq⟩
+        have hsem : ∀ (ρ : String → K) v, eval ρ (.bin .mul a (.num (Ext.fin kv))) = some v →
+            ∃ w, eval ρ a = some w ∧ w * kv = v := by
+          intro ρ v hv
+          obtain ⟨p, q, hp, hq, hpq⟩ := eval_bin_some hv
+          rw [eval_num_fin] at hq
+          simp only [Option.some.injEq] at hq
+          simp [binVal, ← hq] at hpq
+          exact ⟨p, hp, hpq⟩
+        by_cases hk0 : kv = 0
+        · subst hk0; exact spec_scale_zero A hsem
+        · exact spec_scale hk0 A hsem
     · rw [linExp.eq_5 _ _ _ hna hnb] at h
       simp [fail_ok] at h
 
